@@ -127,7 +127,10 @@ func runRecord(tracePath, scheme string, seed int64, n, big int, sum *tl.Summary
 		f := randomFlat(r, size)
 		can := buildCanonical(f)
 		nstale := 0
-		for a, acct := range f.accounts {
+		akeys := keysOfAccts(f.accounts)
+		sort.Slice(akeys, func(i, j int) bool { return bytes.Compare(akeys[i][:], akeys[j][:]) < 0 })
+		for _, a := range akeys {
+			acct := f.accounts[a]
 			acct.Root = can.sroots[a]
 			if r.Intn(4) == 0 {
 				f.stale[a] = true
